@@ -1,4 +1,4 @@
-"""E8 -- affine equalities (Karr) x lower-bound intervals on the rainflow IR.
+"""E8 -- affine equalities (Karr) x lower-bound intervals x template inequalities on the rainflow transition systems.
 
 State  : a set of affine equalities over integer program variables (kept as a reduced row-echelon matrix over Q)
          plus, per variable, a proved lower bound (int or None).
@@ -475,366 +475,6 @@ def _hull(e1, e2):
         const = -sum(a[i] * p1[vs[i]] for i in range(n))
         out.append(Aff({vs[i]: a[i] for i in range(n) if a[i]}, const))
     return State._reduce(out) or []
-
-
-def _walk(stmts):
-    for s in stmts:
-        yield s
-        if s[0] == "for":
-            yield from _walk(s[4])
-        elif s[0] == "while":
-            yield from _walk(s[2])
-        elif s[0] == "if":
-            yield from _walk(s[2])
-            yield from _walk(s[3])
-
-
-# ---------------------------------------------------------------------------
-class Analysis:
-    """abstract interpretation of the rainflow IR; proof obligations (array index bounds, output row capacity) are collected
-    in one final pass over each loop body at its stable head state"""
-
-    def __init__(self, arrays, index_vars, rows="rows", fullrows="fullrows", full_count=Fraction(1)):
-        self.arrays = arrays          # array name -> length (Aff)
-        self.rows = rows
-        self.fullrows = fullrows
-        self.full_count = full_count
-        self.obl = []                 # (description, proved?, state repr)
-        self.record = True
-        State.templates = [n - V(v) - 1 for n in {repr(x): x for x in arrays.values()}.values() for v in index_vars]
-        self.heads = []               # (loop description, stable head state)
-        self.emits = []               # (count expr, state) at each rf emission in the final pass
-
-    def block(self, stmts, st):
-        brk = State(bottom=True)
-        prev = None
-        for s in stmts:
-            if s[0] == "emit" and s[1] != "rf" and not st.bottom:
-                # a companion output row: written at the row the rf emission just before it used (rows - 1)
-                paired = prev is not None and prev[0] == "emit" and prev[1] == "rf"
-                self._note(f"emit {s[1]}: directly follows an rf emission (same row)", paired, st)
-                if s[1] in self.arrays:
-                    self._note(f"emit {s[1]}: row {V(self.rows) - 1} <= {self.arrays[s[1]] - 1} (output capacity)",
-                               st.prove_nonneg(self.arrays[s[1]] - V(self.rows)), st)
-            st, b = self.stmt(s, st)
-            brk = brk.join(b)
-            prev = s
-        return st, brk
-
-    def _note(self, desc, ok, st):
-        if self.record:
-            self.obl.append((desc, ok, repr(st)))
-
-    def _accesses(self, e, st, where):
-        if not self.record:
-            return
-        if e[0] == "idx":
-            self._check_index(e[1], e[2], st, where)
-            self._accesses(e[2], st, where)
-        elif e[0] in ("bin", "cmp"):
-            self._accesses(e[2], st, where)
-            self._accesses(e[3], st, where)
-        elif e[0] in ("neg", "abs"):
-            self._accesses(e[1], st, where)
-
-    def _check_index(self, arr, ix, st, where):
-        if not self.record or arr not in self.arrays or st.bottom:
-            return
-        a = aff_of_ir(ix)
-        if a is None:
-            self._note(f"{where} {arr}[{ix}]: index is affine", False, st)
-            return
-        self._note(f"{where} {arr}[{a}]: 0 <= {a}", st.prove_nonneg(a), st)
-        self._note(f"{where} {arr}[{a}]: {a} <= {self.arrays[arr] - 1}", st.prove_nonneg(self.arrays[arr] - a - 1), st)
-
-    def _for_body(self, body, head, var, hi):
-        inb = head.copy()
-        rng = hi - V(var) - 1
-        if not any(repr(rng) == repr(t) for t in State.templates):
-            State.templates.append(rng)
-        inb.add_ineq(rng)
-        out, brk = self.block(body, inb)
-        if not brk.bottom:
-            raise Unsupported("break out of a for loop")
-        if not out.bottom:
-            out.assign(var, V(var) + 1)
-        return out
-
-    def saturate(self, st):
-        """template facts that hold now are made explicit so that loops can carry them"""
-        if st.bottom:
-            return st
-        for t in State.templates:
-            if not any(repr(t) == repr(g) for g in st.ineqs) and st.prove_nonneg(t):
-                st.ineqs.append(t)
-        return st
-
-    def _widen(self, head, new_head, it):
-        if it >= 3:
-            for v in list(new_head.lb):
-                if v in head.lb and new_head.lb[v] < head.lb[v]:
-                    del new_head.lb[v]
-        return new_head
-
-    def stmt(self, s, st):
-        bot = State(bottom=True)
-        if st.bottom:
-            return st, bot
-        k = s[0]
-        if k == "set":
-            self._accesses(s[2], st, "read")
-            if s[1][0] == "idx":
-                self._check_index(s[1][1], s[1][2], st, "write")
-                self._accesses(s[1][2], st, "read")
-                return st, bot
-            st = st.copy()
-            st.assign(s[1][1], aff_of_ir(s[2]))
-            return st, bot
-        if k == "emit":
-            for e in s[2]:
-                self._accesses(e, st, "read")
-            if s[1] == "rf":
-                rows = V(self.rows)
-                self._note(f"emit rf: row {rows} <= {self.arrays['rf'] - 1} (output capacity)",
-                           st.prove_nonneg(self.arrays["rf"] - rows - 1), st)
-                if self.record:
-                    self.emits.append((s[2][2], st))
-                st = st.copy()
-                st.assign(self.rows, rows + 1)
-                if s[2][2] == ("num", self.full_count):
-                    st.assign(self.fullrows, V(self.fullrows) + 1)
-            return st, bot
-        if k == "break":
-            return bot, st
-        if k == "if":
-            self._accesses(s[1], st, "read")
-            t, f = self.guard(s[1], st)
-            st1, b1 = self.block(s[2], t)
-            st2, b2 = self.block(s[3], f)
-            return st1.join(st2), b1.join(b2)
-        if k == "while":
-            rec, self.record = self.record, False
-            head = st
-            for it in range(60):
-                t, f = self.guard(s[1], head)
-                body_out, brk = self.block(s[2], t)
-                new_head = self._widen(head, head.join(body_out), it)
-                if new_head.leq(head) and head.leq(new_head):
-                    break
-                head = new_head
-            else:
-                raise Unsupported("while loop did not stabilise")
-            self.record = rec
-            self._accesses(s[1], head, "read")
-            t, f = self.guard(s[1], head)
-            body_out, brk = self.block(s[2], t)       # final (recording) pass
-            if self.record:
-                self.heads.append((f"while {s[1]}", head))
-            return f.join(brk), bot
-        if k == "for":
-            var, lo, hi, body = s[1], aff_of_ir(s[2]), aff_of_ir(s[3]), s[4]
-            if lo is None or hi is None:
-                raise Unsupported("non-affine loop range")
-            assigned = {t[1][1] for t in _walk(body) if t[0] == "set" and t[1][0] == "var"}
-            if (hi.vars() | {var}) & assigned:
-                raise Unsupported("loop body assigns the loop variable or its bound")
-            st = self.saturate(st.copy())
-            st.assign(var, lo)
-            init = st
-            rec, self.record = self.record, False
-            head = init
-            try:
-                for it in range(60):
-                    nxt = self._for_body(body, head, var, hi)
-                    new_head = self._widen(head, init.join(nxt), it)
-                    if new_head.leq(head) and head.leq(new_head):
-                        break
-                    head = new_head
-                else:
-                    raise Unsupported("for loop did not stabilise")
-            finally:
-                self.record = rec
-            nxt = self._for_body(body, head, var, hi)               # final (recording) pass
-            if self.record:
-                self.heads.append((f"for {var} in {lo}..{hi}", head))
-            # exit: the loop ends the first time var >= hi.  Either it never ran (init and lo >= hi) or the last
-            # increment took var from hi-1 to hi (nxt carries hi - var >= 0, so var == hi).
-            e0 = init.copy()
-            if e0.prove_nonneg(hi - V(var) - 1):
-                e0 = State(bottom=True)            # the range is provably non-empty
-            else:
-                e0.assume_nonneg(V(var) - hi)      # the loop never ran: var >= hi
-            e1 = nxt.copy()
-            e1.add_eq(V(var) - hi)                 # body entry had var <= hi-1, body leaves var and hi alone, then var += 1
-            return e0.join(e1), bot
-        raise Unsupported(f"IR statement {k}")
-
-    def guard(self, c, st):
-        """(state where c holds, state where it does not)"""
-        t, f = st.copy(), st.copy()
-        if c[0] != "cmp":
-            return t, f
-        a, b = aff_of_ir(c[2]), aff_of_ir(c[3])
-        if a is None or b is None:
-            return t, f          # data-dependent comparison: both outcomes possible
-        d = a - b
-        op = c[1]
-        single = len(d.c) == 1
-        if op == "==":
-            t.add_eq(d)
-        elif op == "!=":
-            f.add_eq(d)
-        if single:
-            (v, x), = d.c.items()
-            # v * x + k  op 0
-            import math
-            def ge(state, bound):   # v >= bound
-                state.lb[v] = max(state.lb.get(v, bound), bound)
-            kk = -d.k / x
-            if x > 0:
-                if op == ">":
-                    ge(t, math.floor(kk) + 1)
-                elif op == ">=":
-                    ge(t, math.ceil(kk))
-                elif op == "<":
-                    ge(f, math.ceil(kk))
-                elif op == "<=":
-                    ge(f, math.floor(kk) + 1)
-                elif op == "==" and kk.denominator == 1:
-                    ge(t, int(kk))
-            else:
-                if op == "<":
-                    ge(t, math.floor(kk) + 1)
-                elif op == "<=":
-                    ge(t, math.ceil(kk))
-                elif op == ">":
-                    ge(f, math.ceil(kk))
-                elif op == ">=":
-                    ge(f, math.floor(kk) + 1)
-        return t, f
-
-
-# ---------------------------------------------------------------------------
-class CounterAnalysis(Analysis):
-    """the same abstract interpreter on the *counter program* extracted from path effects (verifier/c05sem.counter_program):
-         ('acc', array, index Aff, 'r'|'w')   obligation 0 <= index <= len(array) - 1 in the state at the head of the path
-         ('rows', n, nfull)                   n output rows are written (capacity obligation), nfull of them with count 1
-         ('pset', [(var, Aff), ...])          simultaneous assignment, right-hand sides in terms of the state at the head of the path
-         ('if', ('nd',) | ('cmpaff', op, Aff), then, else), ('break',), ('unreachable',)
-         ('for', var, lo Aff, hi Aff, body), ('while', ('cmpaff', op, Aff), body)"""
-
-    def __init__(self, arrays, index_vars, out_cap, rows="rows", fullrows="fullrows"):
-        super().__init__(arrays, index_vars, rows, fullrows)
-        self.out_cap = out_cap        # capacity (rows) of every output array that is written in lock-step
-
-    def stmt(self, s, st):
-        bot = State(bottom=True)
-        if st.bottom:
-            return st, bot
-        k = s[0]
-        if k == "acc":
-            _, arr, ix, rw = s
-            if arr in self.arrays:
-                what = "read" if rw == "r" else "write"
-                self._note(f"{what} {arr}[{ix}]: 0 <= {ix}", st.prove_nonneg(ix), st)
-                self._note(f"{what} {arr}[{ix}]: {ix} <= {self.arrays[arr] - 1}", st.prove_nonneg(self.arrays[arr] - ix - 1), st)
-            return st, bot
-        if k == "rows":
-            _, n, nfull = s
-            rows = V(self.rows)
-            self._note(f"rows {rows} .. {rows + (n - 1)} written: {rows + (n - 1)} <= {self.out_cap - 1} (capacity of every output array)",
-                       st.prove_nonneg(self.out_cap - rows - n), st)
-            st = st.copy()
-            st.assign(self.rows, rows + n)
-            if nfull:
-                st.assign(self.fullrows, V(self.fullrows) + nfull)
-            return st, bot
-        if k == "pset":
-            st = st.copy()
-            tmp = []
-            for i, (v, a) in enumerate(s[1]):
-                t = f"__p{i}"
-                st.assign(t, a)
-                tmp.append((v, t))
-            for v, t in tmp:
-                st.assign(v, V(t))
-            for _, t in tmp:
-                st.forget(t)
-            return st, bot
-        if k == "unreachable":
-            return bot, bot
-        if k == "if":
-            t, f = self.guard(s[1], st)
-            st1, b1 = self.block(s[2], t)
-            st2, b2 = self.block(s[3], f)
-            return st1.join(st2), b1.join(b2)
-        if k == "for":
-            # reuse the parent's machinery through IR-shaped expressions
-            return self._for_aff(s, st)
-        return super().stmt(s, st)
-
-    def _for_aff(self, s, st):
-        bot = State(bottom=True)
-        var, lo, hi, body = s[1], s[2], s[3], s[4]
-        st = self.saturate(st.copy())
-        st.assign(var, lo)
-        init = st
-        rec, self.record = self.record, False
-        head = init
-        try:
-            for it in range(60):
-                nxt = self._for_body(body, head, var, hi)
-                new_head = self._widen(head, init.join(nxt), it)
-                if new_head.leq(head) and head.leq(new_head):
-                    break
-                head = new_head
-            else:
-                raise Unsupported("for loop did not stabilise")
-        finally:
-            self.record = rec
-        nxt = self._for_body(body, head, var, hi)
-        if self.record:
-            self.heads.append((f"for {var} in {lo}..{hi}", head))
-        e0 = init.copy()
-        if e0.prove_nonneg(hi - V(var) - 1):
-            e0 = State(bottom=True)
-        else:
-            e0.assume_nonneg(V(var) - hi)
-        e1 = nxt.copy()
-        e1.add_eq(V(var) - hi)
-        return e0.join(e1), bot
-
-    def guard(self, c, st):
-        t, f = st.copy(), st.copy()
-        if c[0] == "nd":
-            return t, f
-        if c[0] != "cmpaff":
-            return super().guard(c, st)
-        op, d = c[1], c[2]          # d <op> 0
-        import math
-        if op == "==":
-            t.add_eq(d)
-        elif op == "!=":
-            f.add_eq(d)
-        if len(d.c) == 1:
-            (v, x), = d.c.items()
-            kk = -d.k / x
-
-            def ge(state, bound):
-                state.lb[v] = max(state.lb.get(v, bound), bound)
-            pos = x > 0
-            if op in (">", ">=", "<", "<="):
-                strict = op in (">", "<")
-                is_gt = (op in (">", ">=")) == pos          # v > kk / v >= kk   (after dividing by x)
-                if is_gt:
-                    ge(t, math.floor(kk) + 1 if strict else math.ceil(kk))
-                else:
-                    ge(f, math.ceil(kk) if strict else math.floor(kk) + 1)
-            elif op == "==" and kk.denominator == 1:
-                ge(t, int(kk))
-        for stt in (t, f):
-            stt._check_feasible()
-        return t, f
 
 
 # ---------------------------------------------------------------------------
